@@ -868,7 +868,9 @@ class Ex:
 
     def ex_IfExp(self, e):
         if self.branch(self.truth(self.ev(e.test)), "ifexp " + self.site(e.test)):
+            self._narrow(e.test, True)
             return self.ev(e.body)
+        self._narrow(e.test, False)
         return self.ev(e.orelse)
 
     def ex_JoinedStr(self, e):
@@ -1512,7 +1514,7 @@ class Ex:
             if key in self._globals:
                 return self._globals[key](self, obj, args, kwargs, node)
             raise Unsupported(f"super().{name} leaves the package and the spec has no contract for it")
-        if isinstance(recv, VOpaque):
+        if isinstance(recv, VOpaque) and recv.kind not in ("emptylist", "emptyset", "emptydict", "listofset"):
             key = f"{recv.kind}.{name}"
             if key in self._globals:
                 return self._globals[key](self, recv, args, kwargs, node)
